@@ -2,7 +2,9 @@ package loader
 
 import (
 	"encoding/csv"
+	"errors"
 	"fmt"
+	goio "io"
 	"os"
 	"strings"
 
@@ -41,9 +43,14 @@ func CSVtoNumpyMulti(csvReader *csv.Reader, tbk io.TimeBucketKey, cvm *CSVMetada
 	var linesRead int
 	for i := 0; i < chunkSize; i++ {
 		row, err2 := csvReader.Read()
-		if err2 != nil {
+		if errors.Is(err2, goio.EOF) {
 			endReached = true
 			break
+		}
+		if err2 != nil {
+			// a malformed row (wrong number of fields, bad quoting) is not the end of the file:
+			// report it instead of silently dropping the rest of the file
+			return nil, false, fmt.Errorf("read csv row: %w", err2)
 		}
 		csvChunk = append(csvChunk, row)
 		linesRead++
@@ -164,6 +171,9 @@ func ReadMetadata(dataFD, controlFD *os.File, dbDataShapes []io.DataShape) (csvR
 		*/
 		inputColNames = make([]string, len(cvm.Config.ColumnNameMap))
 		copy(inputColNames, cvm.Config.ColumnNameMap)
+		// without a header row the first data row would otherwise set the expected number of fields:
+		// a short first row was then indexed out of range
+		csvReader.FieldsPerRecord = len(inputColNames)
 	case cvm.Config.FirstRowHasColumnNames && cvm.Config.ColumnNameMap != nil:
 		/*
 			Implement column renaming
@@ -224,7 +234,7 @@ func convertCSVtoCSM(tbk io.TimeBucketKey, cvm *CSVMetadata, csvDataChunk [][]st
 	epochCol, nanosCol := readTimeColumns(csvDataChunk, cvm.ColumnIndex, cvm.Config)
 	if epochCol == nil {
 		log.Error("Error building time columns from csv data")
-		return
+		return nil, errors.New("error building time columns from csv data")
 	}
 
 	csmInit := io.NewColumnSeriesMap()
